@@ -937,7 +937,7 @@ func (b *Base) refine0(x *Exec, cond ast.Expr, truth bool, s St) []St {
 		return []St{s.Set("b:"+t, fmt.Sprint(truth))}
 	case *ast.CallExpr:
 		// pure predicate calls over terms become atoms
-		if key := calleeKey(info, c); key != "" && isPurePredicate(key) {
+		if key := canonPred(x.Fn.P, calleeKey(info, c)); key != "" && isPurePredicate(key) {
 			var ts []string
 			for _, a := range c.Args {
 				t, ok := b.Term(x, a, s)
@@ -950,6 +950,46 @@ func (b *Base) refine0(x *Exec, cond ast.Expr, truth bool, s St) []St {
 		}
 	}
 	return []St{s}
+}
+
+// canonPred maps the module's two size predicates to canonical keys whatever they are called:
+// "disk.sumLargerThan" is the three-argument int64 predicate called in the guard of SizedLRU.Reserve's
+// eviction loop; "disk.isSizeMismatch" the two-argument int64 predicate of package disk.
+func canonPred(p *Prog, key string) string {
+	if key == "" {
+		return ""
+	}
+	if p.predAlias == nil {
+		p.predAlias = map[string]string{}
+		for _, fi := range p.FuncsInPkg("/cache/disk") {
+			if fi.Decl.Recv != nil || fi.Decl.Body == nil {
+				continue
+			}
+			sig, ok := fi.Obj.Type().(*types.Signature)
+			if !ok || sig.Results().Len() != 1 || sig.Results().At(0).Type().String() != "bool" {
+				continue
+			}
+			allInt64 := sig.Params().Len() > 0
+			for i := 0; i < sig.Params().Len(); i++ {
+				if sig.Params().At(i).Type().String() != "int64" {
+					allInt64 = false
+				}
+			}
+			if !allInt64 {
+				continue
+			}
+			switch sig.Params().Len() {
+			case 3:
+				p.predAlias[fi.Key] = "disk.sumLargerThan"
+			case 2:
+				p.predAlias[fi.Key] = "disk.isSizeMismatch"
+			}
+		}
+	}
+	if a := p.predAlias[key]; a != "" {
+		return a
+	}
+	return key
 }
 
 func isPurePredicate(key string) bool {
@@ -1165,7 +1205,7 @@ func (b *Base) termsOf(x *Exec, e ast.Expr, s St) ([]string, bool) {
 				ok = false
 			}
 		case *ast.CallExpr:
-			if key := calleeKey(x.Fn.Info, e); key != "" && isPurePredicate(key) {
+			if key := canonPred(x.Fn.P, calleeKey(x.Fn.Info, e)); key != "" && isPurePredicate(key) {
 				for _, a := range e.Args {
 					walk(a)
 				}
